@@ -518,6 +518,8 @@ func init() {
 	register("C05", &core.Rule{ID: "C05.7", Title: "no received request is discarded", Mod: core.ModCBP, Floor: 1, Run: c05_7})
 	register("C05", &core.Rule{ID: "C05.8", Title: "split size, counter decrement and reported size agree", Mod: core.ModCBP, Floor: 3, Run: c05_8})
 	register("C05", &core.Rule{ID: "C05.9", Title: "counter follows content in add", Mod: core.ModCBP, Floor: 3, Run: c05_9})
+	register("C06", &core.Rule{ID: "C06.10", Title: "add() appends the incoming request behind the pending items (the FIFO order the apportioning of responses relies on)", Mod: core.ModCBP, Floor: 3, Run: c05_9})
+	register("C09", &core.Rule{ID: "C09.8", Title: "add() appends the incoming request behind the pending items (older items leave first when the buffer is cut)", Mod: core.ModCBP, Floor: 3, Run: c05_9})
 	register("C05", &core.Rule{ID: "C05.10", Title: "capacity tests in split callbacks read live state", Mod: core.ModCBP, Floor: 10, Run: c05_10, Canary: c05_10Canary})
 }
 
@@ -770,7 +772,11 @@ func c05_9(c *core.Ctx, p *core.Prog) {
 					msgs = append(msgs, "MoveAndAppendTo does not move the item's top-level containers into the same list of the pending batch")
 				}
 				if !isFieldLoad(dst, bi.data) {
-					msgs = append(msgs, "items are not moved into the pending buffer")
+					if isFieldLoad(src, bi.data) {
+						msgs = append(msgs, "the pending items are moved behind the incoming request (the buffer is appended to the request instead of the request to the buffer): the buffer is no longer in arrival order, so when it is cut the newest items leave first — responses are apportioned to the wrong callers and older items miss their flush")
+					} else {
+						msgs = append(msgs, "items are not moved into the pending buffer")
+					}
 				}
 				item = src
 			case "CopyTo":
